@@ -102,7 +102,8 @@ func subTree(s *slip.Scope, tree slip.Object, subs slip.List, kc, tc slip.Caller
 		dup := make(slip.List, len(list))
 		for i, e := range list {
 			if tail, ok2 := e.(slip.Tail); ok2 {
-				dup[i] = slip.Tail{Value: subTree(s, tail.Value, subs, kc, tc, depth)}
+				// The new cdr can be a list or nil.
+				return dup[:i].WithCdr(subTree(s, tail.Value, subs, kc, tc, depth))
 			} else {
 				dup[i] = subTree(s, e, subs, kc, tc, depth)
 			}
